@@ -677,6 +677,11 @@ def _apply(t, v, env):
         if op in ("udiv", "urem") and v[1] == 0:
             raise ZeroDivisionError
         return t_binop(op, v[0], v[1], w)
+    if op == "uf":
+        f = UF_IMPL.get(t.aux[0])
+        if f is None:
+            raise ValueError("eval: uninterpreted function %s has no registered interpretation" % t.aux[0])
+        return f(t.aux[1], tuple(v)) & M
     raise ValueError("eval: " + op)
 
 
@@ -705,3 +710,70 @@ def topo(roots):
 
 def variables(roots):
     return [t for t in topo(roots) if t.op == "var"]
+
+
+# ---------------------------------------------------------------- uninterpreted functions
+# (added for C17) An application of an uninterpreted function family `name`,
+# output component `idx`, to a fixed-arity argument list.  Hash-consing gives
+# functional consistency for syntactically identical arguments; the SMT
+# emitter declares one function symbol per (name, idx, argument widths) so a
+# solver adds congruence for the rest.  `evaluate` uses UF_IMPL[name](idx,
+# argument values) when an interpretation has been registered.
+
+UF_IMPL = {}
+
+
+def t_uf(name, idx, args, widths, w):
+    """args: ints/Terms; widths: their bit widths (same length)"""
+    assert len(args) == len(widths)
+    if all(_c(a) for a in args) and name in UF_IMPL and UF_FOLD.get(name):
+        return UF_IMPL[name](idx, tuple(args)) & mask(w)
+    return _mk("uf", tuple(args), w, (name, idx, tuple(widths)))
+
+
+UF_FOLD = {}
+
+
+def substitute(roots, mapping):
+    """Rebuild the DAG below `roots` with every term whose id is a key of
+    `mapping` replaced by mapping[id] (an int or Term of the same width).
+    The replacement is not descended into.  Nodes are rebuilt with the raw
+    constructor (no re-simplification) unless unchanged.  Returns the list of
+    new roots."""
+    memo = {}
+
+    def get(x):
+        if not isinstance(x, Term):
+            return x
+        return memo[x.id]
+    for t in topo([r for r in roots if isinstance(r, Term)]):
+        if t.id in mapping:
+            memo[t.id] = mapping[t.id]
+            continue
+        if not t.args:
+            memo[t.id] = t
+            continue
+        na = tuple(get(a) for a in t.args)
+        if all(x is y for x, y in zip(na, t.args)):
+            memo[t.id] = t
+        else:
+            memo[t.id] = _rebuild(t, na)
+    return [get(r) for r in roots]
+
+
+def _rebuild(t, na):
+    """same operator applied to new arguments; constant-folds when every
+    argument became constant (by concrete evaluation of the one node)"""
+    if all(_c(a) for a in na) and t.op != "uf":
+        return _apply(t, list(na), {})
+    if t.op in ("add", "mul", "and", "or", "xor") and any(_c(a) for a in na[:-1]):
+        # keep the invariant "constants last" used by the simplifier
+        cs = [a for a in na if _c(a)]
+        ts = [a for a in na if not _c(a)]
+        f = {"add": lambda x, y: (x + y), "mul": lambda x, y: x * y, "and": lambda x, y: x & y,
+             "or": lambda x, y: x | y, "xor": lambda x, y: x ^ y}[t.op]
+        c = cs[0]
+        for x in cs[1:]:
+            c = f(c, x)
+        na = tuple(ts) + (c & mask(t.w),)
+    return _mk(t.op, na, t.w, t.aux)
